@@ -40,6 +40,9 @@ type vScenario struct {
 	StallName string          `json:"stallname"`
 	StallPt   int             `json:"stallpt"`
 	StallOcc  int             `json:"stallocc"`
+	UntilName string          `json:"untilname"`
+	UntilPt   int             `json:"untilpt"`
+	UntilOcc  int             `json:"untilocc"`
 	ID        string          `json:"id"`
 	Seed      int64           `json:"seed"`
 	Strategy  string          `json:"strategy"` // random | pct | plan
@@ -495,6 +498,7 @@ func vRunConnScenario(sc *vScenario) (out []vOutEvent, info map[string]interface
 	}
 	s.plan = sc.Plan
 	s.stallName, s.stallPt, s.stallOcc = sc.StallName, int32(sc.StallPt), sc.StallOcc
+	s.untilName, s.untilPt, s.untilOcc = sc.UntilName, int32(sc.UntilPt), sc.UntilOcc
 	r := &vConnRun{sc: sc, s: s}
 	s.emit = r.ev
 	mp := vNewManualPoll(s, "poller")
